@@ -578,6 +578,7 @@ void Runner::check_stop_model(Thread *t, int idx, const int stop_in[6], OpRes &r
   (void) t; (void) st0;
   Proc *c = proc_of(h);
   if (!c || !stop_in) return;
+  if (c->auto_reaped) return;  // collected by somebody else behind the library's back: what it signals afterwards goes nowhere we record
   int stop[6];
   memcpy(stop, stop_in, sizeof stop);
   bool ret_known = res.ret != LLONG_MIN;
